@@ -634,6 +634,31 @@ def restripe_buffers(V, nbuf):
     return cl
 
 
+def stripe_input(V):
+    """the input volume the scheduler records for a striped operator (SchedulerOperation.create_scheduler_info -> stripe_input, the consumer side of
+    rolling_buffer_shape): the rows and columns the stripe's receptive field needs, limited to the IFM's own height and width - height by height,
+    width by width.  Symbolic IFM shape, stripe height, requirement; weights and block configuration are stubs."""
+    import ethosu.vela.npu_performance  # noqa: F401
+    import ethosu.vela.scheduler as sch
+    from ethosu.vela.shape4d import Shape4D
+
+    ih, iw = V.int("ifm_h", 1, 4096), V.int("ifm_w", 1, 4096)
+    need_h, need_w = V.int("needed_rows", 1, 8192), V.int("needed_cols", 1, 8192)
+    sh = V.int("stripe_h", 1, 4096)
+    V.assume(L(sh) < L(ih))
+    me = _Obj(ifm=_Obj(shape=Shape4D(1, ih, iw, 16)), ifm2=None, ofm=_Obj(shape=Shape4D(1, ih, iw, 16)), uses_scalar=False, parent_op=_Obj(weights=None),
+              parent_ps=_Obj(block_config=None), arch=None, kernel=None)
+    me._get_stripe_input_requirement = lambda stripe: (need_w, need_h)
+    me._get_block_config = lambda *a: _Obj(old_style_representation=lambda: [1, 1, 1, 16])
+    with core.shims((sch, {"min": core.smin, "max": core.smax})):
+        info = sch.SchedulerOperation.create_scheduler_info(me, None, Shape4D(1, sh, iw, 16))
+    si = info.stripe_input
+    mn = lambda a, b: z3.If(a < b, a, b)  # noqa: E731
+    return [("rows: the requirement limited to the IFM height", L(si.height) == mn(L(need_h), L(ih))),
+            ("columns: the requirement limited to the IFM width", L(si.width) == mn(L(need_w), L(iw))),
+            ("depth and batch of the IFM", z3.And(L(si.depth) == 16, L(si.batch) == 1))]
+
+
 def cascadable(V):
     """which operators may be split into stripes inside a cascade: the REAL CascadeBuilder._is_cascadable on a stand-in scheduler operation whose
     kind, padding mode, read offsets, stripe and OFM heights are symbolic.  The per-stripe lemmas above are proved for operators the cascade builder
@@ -710,7 +735,7 @@ def rolling_dims(V, **params):
     return c02.rolling_dims(V, **params)
 
 
-FUNCS = {"restripe_buffers": restripe_buffers, "apply_twice": apply_twice, "cascadable": cascadable, "rolling_dims": rolling_dims, "tconv_pads": tconv_pads, "stripe_proposals": stripe_proposals, "rows": rows, "cols": cols, "rows_upscaled": rows_upscaled, "area": area, "cascade": cascade}
+FUNCS = {"stripe_input": stripe_input, "restripe_buffers": restripe_buffers, "apply_twice": apply_twice, "cascadable": cascadable, "rolling_dims": rolling_dims, "tconv_pads": tconv_pads, "stripe_proposals": stripe_proposals, "rows": rows, "cols": cols, "rows_upscaled": rows_upscaled, "area": area, "cascade": cascade}
 
 
 
@@ -735,6 +760,7 @@ def instances(tier, seed):
                                 params=dict(stride=stride, mode=mode, striped=striped, hmax=hmax, kmax=kmax, split=1)))
     out.append(dict(key="rolling_dims", fn="rolling_dims", params={}))
     out.append(dict(key="cascadable", fn="cascadable", params={}))
+    out.append(dict(key="stripe_input", fn="stripe_input", params={}))
     for nb in (1, 2):
         out.append(dict(key="restripe_buffers/%d" % nb, fn="restripe_buffers", params=dict(nbuf=nb)))
     for fc in (0, 1):
